@@ -87,6 +87,14 @@ def _isinstance_branch(f):
     for i, st in enumerate(body):
         if isinstance(st, ast.If) and isinstance(st.test, ast.Call) and norm(st.test.func) == "isinstance" and norm(st.test.args[1]) == "LogRepFloat":
             return body[:i], st, body[i + 1 :]
+        # inverted guard: `if not isinstance(other, LogRepFloat): <linear, returns>` followed by the log path
+        if (
+            isinstance(st, ast.If) and isinstance(st.test, ast.UnaryOp) and isinstance(st.test.op, ast.Not)
+            and isinstance(st.test.operand, ast.Call) and norm(st.test.operand.func) == "isinstance" and norm(st.test.operand.args[1]) == "LogRepFloat"
+            and st.body and isinstance(st.body[-1], (ast.Return, ast.Raise)) and not st.orelse
+        ):
+            synth = ast.copy_location(ast.If(test=st.test.operand, body=list(body[i + 1 :]), orelse=list(st.body)), st)
+            return body[:i], synth, []
     return None, None, None
 
 
